@@ -2231,6 +2231,13 @@ class Fparser2Reader():
 
             # Update its type with the definition we've found
             tsymbol.datatype = dtype
+            if tsymbol.is_unresolved:
+                # The symbol was created when an earlier declaration referred
+                # to this type (e.g. a pointer component of a preceding
+                # type). Now that we have its definition it is a local
+                # entity that must be declared.
+                tsymbol.interface = AutomaticInterface()
+                tsymbol.visibility = dtype_symbol_vis
 
         except NotImplementedError:
             # Support for this declaration is not fully implemented so
